@@ -100,8 +100,11 @@ pub proof fn lemma_tables_push<'d>(ts: Seq<StringTable>, t: StringTable, recs: S
     }
 }
 pub proof fn lemma_acip_ext<'d>(a: ACip<'d>, b: ACip<'d>)
-    requires a.name == b.name, a.class == b.class, a.seen == b.seen,
-        forall|k: &'d str| #[trigger] (a.members)(k) == (b.members)(k), forall|k: (&'d str, &'d str)| #[trigger] (a.by)(k) == (b.by)(k),
+    requires
+        /*@L:class_record_and_counters_are_the_abstract_step:C09,C02*/ a.name == b.name && a.class == b.class,
+        /*@L:seen_set_is_the_abstract_step:C03,C02*/ a.seen == b.seen,
+        /*@L:member_sequences_are_the_abstract_step:C01,C02,C09*/ forall|k: &'d str| #[trigger] (a.members)(k) == (b.members)(k),
+        /*@L:by_params_sequences_are_the_abstract_step:C03,C02*/ forall|k: (&'d str, &'d str)| #[trigger] (a.by)(k) == (b.by)(k),
     ensures a == b,
 { assert(a.members =~= b.members); assert(a.by =~= b.by); }
 pub proof fn lemma_abs_done_insert<'d>(m: Map<&'d str, ClassInProgress<'d>>, k: &'d str, c: ClassInProgress<'d>)
@@ -248,7 +251,8 @@ pub open spec fn stored_member(lm: Option<LineMapping>, t: StringTable, obfuscat
               spec="""ensures r == (match line_mapping.original_startline {
                         Some(os) => (os as u32, match line_mapping.original_endline { Some(l) => l as u32, None => 0xffff_ffffu32 }),
                         None => (line_mapping.startline as u32, line_mapping.endline as u32) })""")
-    r.closure("|l|", params="|l: usize|", ret="r: u32", spec="ensures r == ({body})")
+    if "|l|" in r.orig:
+        r.closure("|l|", params="|l: usize|", ret="r: u32", spec="ensures r == ({body})")
     r.replace_all_re(r"original_class\.map_or\(u32::MAX, \|class_name\| \{\s*string_table\.insert\(class_name\) as u32\s*\}\)", "shim_insert_opt(string_table, original_class)", "R2",
                      why="closure capturing `&mut string_table` (unsupported by Verus): Option::map_or(u32::MAX, |c| string_table.insert(c) as u32) behind a shim", min_count=0)
     r.insert_at(0, "proof { axiom_key_models(); }\n        broadcast use group_hash_axioms;\n        let ghost t0_ = *string_table; let ghost cc0_ = *current_class;\n        ")
@@ -274,7 +278,7 @@ pub open spec fn stored_member(lm: Option<LineMapping>, t: StringTable, obfuscat
             && final(current_class).class.obfuscated_name_offset == old(current_class).class.obfuscated_name_offset
             && final(current_class).class.original_name_offset == old(current_class).class.original_name_offset
             && final(current_class).class.file_name_offset == old(current_class).class.file_name_offset,
-        /*@L:method_record_is_one_step_of_the_abstract_writer:C02,C03,C09,C01*/ abs_cip(*final(current_class))
+        /*@L:method_record_is_one_step_of_the_abstract_writer:C02*/ abs_cip(*final(current_class))
             == w_method(*final(string_table), abs_cip(*old(current_class)), line_mapping, obfuscated, original, original_class, arguments, next),
         /*@L:method_strings_are_interned:C09*/ offset_of(*final(string_table), obfuscated@) is Some && offset_of(*final(string_table), original@) is Some
             && offset_of(*final(string_table), arguments@) is Some && (original_class is Some ==> offset_of(*final(string_table), original_class->0@) is Some),
@@ -307,7 +311,7 @@ pub open spec fn stored_member(lm: Option<LineMapping>, t: StringTable, obfuscat
             && offset_of(*final(string_table), original@) is Some && ret.class.original_name_offset == offset_of(*final(string_table), original@)->0 as u32,
         /*@L:finished_class_is_stored_under_its_obfuscated_name_last_one_wins:C04,C09*/ bmap(*final(classes))
             == (if current_class.name@.len() > 0 { bmap(*old(classes)).insert(current_class.name, current_class) } else { bmap(*old(classes)) }),
-        /*@L:class_record_is_one_step_of_the_abstract_writer:C02,C03,C09*/ abs_cip(ret) == w_class(*final(string_table), original, obfuscated),
+        /*@L:class_record_is_one_step_of_the_abstract_writer:C02*/ abs_cip(ret) == w_class(*final(string_table), original, obfuscated),
         forall|x: Seq<char>| #[trigger] offset_of(*old(string_table), x) is Some ==> offset_of(*final(string_table), x) == offset_of(*old(string_table), x),
 {
     let ghost t0_ = *string_table;
@@ -330,7 +334,7 @@ pub open spec fn stored_member(lm: Option<LineMapping>, t: StringTable, obfuscat
         wf_cip(*old(current_class)) ==> wf_cip(*final(current_class)),
         final(current_class).name == old(current_class).name && final(current_class).unique_methods == old(current_class).unique_methods,
         final(current_class).class.members_len == old(current_class).class.members_len && final(current_class).class.members_by_params_len == old(current_class).class.members_by_params_len,
-        /*@L:header_record_is_one_step_of_the_abstract_writer:C01,C09,C02*/ abs_cip(*final(current_class)) == w_header(*final(string_table), abs_cip(*old(current_class)), key, file_name),
+        /*@L:header_record_is_one_step_of_the_abstract_writer:C02*/ abs_cip(*final(current_class)) == w_header(*final(string_table), abs_cip(*old(current_class)), key, file_name),
         forall|x: Seq<char>| #[trigger] offset_of(*old(string_table), x) is Some ==> offset_of(*final(string_table), x) == offset_of(*old(string_table), x),
 {
     let ghost t0_ = *string_table; let ghost cc0_ = *current_class;
